@@ -27,7 +27,7 @@ def run(rep, kf, tier, seed):
     import contracts.registration as creg
     from pyvc import engine_b as _eb
     _eb.discharge(rep, kf, creg.all_contracts(), "C12", tier, seed)
-    run_bounded(rep, kf, "C12", ["schema_order", "name_collision"], tier)
+    run_bounded(rep, kf, "C12", ["schema_order", "name_collision", "path_order"], tier)
     rep.trusted.extend(["set-typedness is inferred from annotations of the record classes and local data flow (syntactic)",
                         "jinja2 `sort`/`dictsort` and python sorted() are deterministic"])
     rep.assumptions.extend([
